@@ -566,3 +566,86 @@ def required_column_stores(chk, prog, rule: str) -> int:
                     + ": the value used for a day is no longer the one in the user's column of that name (a re-indexed table gives other results)", loc=fi.loc(node))
     chk.ok(rule, "aquacrop", f"stores into required weather columns in {len(formals)} functions that receive the weather frame", f"{n} found; matcher exercised on the embedded example (5 sites)")
     return len(formals)
+
+
+_COLSEL_EXAMPLE = """
+def f(weather_df):
+    t = weather_df.filter(like="Temp").mean(axis=1)
+    n = weather_df.select_dtypes("number")
+    first = weather_df.iloc[:, 1]
+    byname = weather_df[weather_df.columns[2]]
+    rowmean = weather_df.mean(axis=1)
+    ok1 = weather_df[["MinTemp", "MaxTemp"]].mean(axis=1)
+    ok2 = weather_df.iloc[3:10]
+    ok3 = weather_df.filter(items=["MinTemp", "MaxTemp"])
+    return t
+"""
+
+
+def _colsel_sites(fn: ast.AST, formal: str):
+    """[(node, what)] - columns of a frame derived from `formal` chosen by pattern, dtype or position, or aggregated across all columns"""
+    frames = {formal}
+    changed = True
+    while changed:
+        changed = False
+        for a in walk_no_nested(fn):
+            if isinstance(a, ast.Assign) and len(a.targets) == 1 and isinstance(a.targets[0], ast.Name) and a.targets[0].id not in frames:
+                v = a.value
+                # a selection by a literal list of names is no longer "the user's frame with whatever columns it has"
+                if isinstance(v, ast.Subscript) and isinstance(v.slice, ast.List):
+                    continue
+                core = v
+                while isinstance(core, (ast.Call, ast.Attribute, ast.Subscript)):
+                    core = core.func if isinstance(core, ast.Call) else core.value
+                if isinstance(core, ast.Name) and core.id in frames:
+                    frames.add(a.targets[0].id)
+                    changed = True
+
+    def is_frame(e):
+        return isinstance(e, ast.Name) and e.id in frames
+
+    out = []
+    for c in walk_no_nested(fn):
+        if isinstance(c, ast.Call) and isinstance(c.func, ast.Attribute) and is_frame(c.func.value):
+            m = c.func.attr
+            kw = {k.arg: k.value for k in c.keywords}
+            if m == "filter" and ("like" in kw or "regex" in kw):
+                out.append((c, "columns selected by a name pattern"))
+            elif m == "select_dtypes":
+                out.append((c, "columns selected by dtype"))
+            elif m in ("mean", "sum", "max", "min", "median", "prod", "std", "var", "any", "all", "idxmax", "idxmin") and (
+                    (isinstance(kw.get("axis"), ast.Constant) and kw["axis"].value in (1, "columns"))
+                    or (c.args and isinstance(c.args[0], ast.Constant) and c.args[0].value in (1, "columns"))):
+                out.append((c, "aggregate across all columns of the table"))
+        if isinstance(c, ast.Subscript) and isinstance(c.value, ast.Attribute) and c.value.attr == "iloc" and is_frame(c.value.value) \
+                and isinstance(c.slice, ast.Tuple) and len(c.slice.elts) == 2:
+            col = c.slice.elts[1]
+            if not (isinstance(col, ast.Slice) and col.lower is None and col.upper is None and col.step is None):
+                out.append((c, "columns selected by position"))
+        if isinstance(c, ast.Subscript) and isinstance(c.value, ast.Attribute) and c.value.attr == "columns" and is_frame(c.value.value):
+            out.append((c, "column name taken by position from the table's column index"))
+    return out
+
+
+def pattern_column_selection(chk, prog, rule: str) -> int:
+    """each weather variable is taken from the column of that name: in the functions that receive the weather frame no column is chosen by a
+    name pattern (`filter(like=…/regex=…)`), by dtype, by position (`iloc[:, k]`, `columns[k]`), and nothing is aggregated across all columns
+    (`mean(axis=1)`) - an unrelated extra column would join in. Selections by a literal list of names are fine. Expected count zero; the
+    matcher is run on an embedded positive example first."""
+    ex = _colsel_sites(ast.parse(_COLSEL_EXAMPLE).body[0], "weather_df")
+    got = sorted(w for _, w in ex)
+    want = sorted(["columns selected by a name pattern", "columns selected by dtype", "columns selected by position",
+                   "column name taken by position from the table's column index", "aggregate across all columns of the table"])
+    if got != want:
+        raise AnalysisError(f"{rule}: the matcher no longer recognises its positive example ({got})")
+    n = 0
+    formals = sorted(weather_frame_formals(prog))
+    for key, formal in formals:
+        fi = prog.funcs[key]
+        chk.fn(key)
+        for node, what in _colsel_sites(fi.node, formal):
+            n += 1
+            chk.violation(rule, f"{fi.module}:{fi.qualname}", norm(node)[:90], f"{what}: a weather variable is no longer taken from the column of its name - an "
+                          "unrelated extra column of the user's table (or another column order) changes the result", loc=fi.loc(node))
+    chk.ok(rule, "aquacrop", f"column selections in {len(formals)} functions that receive the weather frame", f"{n} by pattern / dtype / position; matcher exercised on the embedded example (5 sites)")
+    return len(formals)
